@@ -19,6 +19,9 @@ pub enum Case {
     Cuckoo { lg_buckets: u32, bucketsize: usize, l_fp: usize },
     Bloom { m: usize, k: usize, seed: u64 },
     Cms { w: usize, d: usize, seed: u64 },
+    /// union of two Bloom filters / merge of two u8 sketches of this size (C06)
+    BloomUnion { m: usize, k: usize, seed: u64 },
+    CmsMerge { w: usize, d: usize, seed: u64 },
     /// BloomFilter::with_properties_and_hash(n, p) for n >= 2^32
     BloomProps { n: usize, p: f64, seed: u64 },
     /// CuckooFilter::with_properties_and_hash_4 / _8 (bucketsize 4 / 8) for n >= 2^31
@@ -26,6 +29,19 @@ pub enum Case {
 }
 
 pub struct Giant;
+
+fn mem_available_gib() -> f64 {
+    let txt = std::fs::read_to_string("/proc/meminfo").unwrap_or_default();
+    for l in txt.lines() {
+        if let Some(rest) = l.strip_prefix("MemAvailable:") {
+            if let Some(kb) = rest.split_whitespace().next().and_then(|v| v.parse::<f64>().ok()) {
+                return kb / (1024.0 * 1024.0);
+            }
+        }
+    }
+    f64::INFINITY // unknown: do not skip
+}
+
 
 fn quotient(q: usize, r: usize) -> Result<u64, (String, String)> {
     let bh = GenBH(HKind::Ident);
@@ -234,18 +250,90 @@ fn props(bloom: bool, bucketsize: u8, n: usize, p: f64, seed: u64) -> Result<u64
     Ok(40_000)
 }
 
+fn bloom_union(m: usize, k: usize, seed: u64) -> Result<u64, (String, String)> {
+    let bh = GenBH(HKind::Seeded(seed % 1000));
+    let mut a: BloomFilter<u64, GenBH> = BloomFilter::with_params_and_hash(m, k, bh);
+    let mut b: BloomFilter<u64, GenBH> = BloomFilter::with_params_and_hash(m, k, bh);
+    let mut both: BloomFilter<u64, GenBH> = BloomFilter::with_params_and_hash(m, k, bh);
+    let ka: Vec<u64> = (0..100u64).map(|i| mix(seed, i) << 1).collect();
+    let kb: Vec<u64> = (0..100u64).map(|i| mix(seed ^ 0x1234, i) << 1).collect();
+    let probes: Vec<u64> = (0..200u64).map(|i| (mix(seed ^ 0x99, i) << 1) | 1).collect();
+    for x in &ka {
+        a.insert(x).unwrap();
+        both.insert(x).unwrap();
+    }
+    for x in &kb {
+        b.insert(x).unwrap();
+        both.insert(x).unwrap();
+    }
+    if a.union(&b).is_err() {
+        return Err(("giant-bloom-union:err".into(), format!("union of two filters with equal parameters returned Err (m={}, k={})", m, k)));
+    }
+    if let Some(x) = ka.iter().chain(kb.iter()).find(|x| !a.query(x)) {
+        return Err(("giant-bloom-union:false-negative".into(), format!("query({}) is false after the union although one operand held the element (m={}, k={})", x, m, k)));
+    }
+    if let Some(x) = probes.iter().find(|x| a.query(x) != both.query(x)) {
+        return Err(("giant-bloom-union:!=sequential".into(), format!("query({}) differs between the union and a filter that saw both streams (m={}, k={})", x, m, k)));
+    }
+    if let Some(x) = kb.iter().find(|x| !b.query(x)) {
+        return Err(("giant-bloom-union:operand-changed".into(), format!("the operand lost element {}", x)));
+    }
+    Ok(600)
+}
+
+fn cms_merge(w: usize, d: usize, seed: u64) -> Result<u64, (String, String)> {
+    let bh = GenBH(HKind::Seeded(seed % 1000));
+    let mut a: CountMinSketch<u64, u8, GenBH> = CountMinSketch::with_params_and_hasher(w, d, bh);
+    let mut b: CountMinSketch<u64, u8, GenBH> = CountMinSketch::with_params_and_hasher(w, d, bh);
+    let mut both: CountMinSketch<u64, u8, GenBH> = CountMinSketch::with_params_and_hasher(w, d, bh);
+    let keys: Vec<u64> = (0..80u64).map(|i| mix(seed, i)).collect();
+    for (i, x) in keys.iter().enumerate() {
+        if i % 2 == 0 {
+            a.add(x);
+        }
+        if i % 3 == 0 {
+            b.add_n(x, &2);
+        }
+        if i % 2 == 0 {
+            both.add(x);
+        }
+        if i % 3 == 0 {
+            both.add_n(x, &2);
+        }
+    }
+    a.merge(&b);
+    for (i, x) in keys.iter().enumerate() {
+        let t = (i % 2 == 0) as u8 + 2 * (i % 3 == 0) as u8;
+        let q = a.query_point(x);
+        if q < t {
+            return Err(("giant-cms-merge:underestimate".into(), format!("query_point = {} < true weight {} after merge (w={}, d={})", q, t, w, d)));
+        }
+        if q != both.query_point(x) {
+            return Err(("giant-cms-merge:!=sequential".into(), format!("query_point = {} after merge but {} in a sketch that saw both streams (w={}, d={})", q, both.query_point(x), w, d)));
+        }
+    }
+    Ok(160)
+}
+
 impl Check for Giant {
     type Case = Case;
     fn name(&self) -> &'static str {
         "giant_tables"
     }
     fn eval(&self, c: &Case) -> Verdict {
+        // the tables are lazily zeroed, but up to 3.5 GiB become resident in the union cases: on a machine without
+        // that much headroom a failing allocation would abort the process, so the case is skipped instead
+        if mem_available_gib() < 24.0 {
+            return Verdict::Pass(Info::new(false, hash_json(c)).class("skipped_less_than_24GiB_available"));
+        }
         let c2 = c.clone();
         let r = catch(move || match c2 {
             Case::Quotient { q, r } => quotient(q, r),
             Case::Cuckoo { lg_buckets, bucketsize, l_fp } => cuckoo(lg_buckets, bucketsize, l_fp),
             Case::Bloom { m, k, seed } => bloom(m, k, seed),
             Case::Cms { w, d, seed } => cms(w, d, seed),
+            Case::BloomUnion { m, k, seed } => bloom_union(m, k, seed),
+            Case::CmsMerge { w, d, seed } => cms_merge(w, d, seed),
             Case::BloomProps { n, p, seed } => props(true, 0, n, p, seed),
             Case::CuckooProps { bucketsize, n, p, seed } => props(false, bucketsize, n, p, seed),
         });
@@ -286,4 +374,8 @@ pub fn props_cases(seed: u64) -> Vec<Case> {
         Case::CuckooProps { bucketsize: 8, n: 1usize << 32, p: 0.9, seed: seed ^ 4 },
         Case::CuckooProps { bucketsize: 4, n: (1usize << 32) + 50, p: 0.9, seed: seed ^ 5 },
     ]
+}
+
+pub fn union_cases(seed: u64) -> Vec<Case> {
+    vec![Case::BloomUnion { m: (1usize << 32) + 15, k: 3, seed }, Case::CmsMerge { w: (1usize << 31) + 3, d: 1, seed: seed ^ 1 }]
 }
